@@ -142,6 +142,43 @@ theorem run_inv (sites : Nat → Site) (hs : AllWrapped sites) (plan : Nat → O
         subst this; exact .inr List.mem_cons_self
     · exact callStep_inv (sites m) (hs m) plan false st
 
+/-- the call counter only grows (no side condition on the sites) -/
+theorem run_mono (sites : Nat → Site) (plan : Nat → Option Mode) (t : Tree) :
+    ∀ st, st.counter ≤ (run sites plan t st).1.counter := by
+  induction t with
+  | nop => intro st; simp [run]
+  | call m => intro st; simp only [run, callStep]; split <;> (try split) <;> simp
+  | pkValidate m => intro st; simp only [run, callStep]; split <;> (try split) <;> simp
+  | absorbErr m =>
+    intro st
+    simp only [run]
+    split
+    · split
+      · simp
+      · simp only [callStep]; split <;> (try split) <;> simp
+    · simp only [callStep]; split <;> (try split) <;> simp
+  | seq a b iha ihb =>
+    intro st
+    simp only [run]
+    have ia := iha st
+    rcases hra : run sites plan a st with ⟨st1, ra⟩
+    rw [hra] at ia
+    cases ra with
+    | some r => simpa using ia
+    | none =>
+      have ib := ihb st1
+      simp only [] at ia ib ⊢
+      omega
+  | tryUpdate t ih =>
+    intro st
+    simp only [run]
+    have it := ih st
+    rcases hr : run sites plan t st with ⟨st1, r⟩
+    rw [hr] at it
+    cases r with
+    | none => simpa using it
+    | some x => cases x <;> simpa using it
+
 /-- without `absorbErr` nodes nothing is ever added to `absorbed` -/
 theorem run_absorbed (sites : Nat → Site) (plan : Nat → Option Mode) (t : Tree) (hna : t.hasAbsorb = false) :
     ∀ st, (run sites plan t st).1.absorbed = st.absorbed := by
@@ -172,5 +209,82 @@ theorem run_absorbed (sites : Nat → Site) (plan : Nat → Option Mode) (t : Tr
     cases r with
     | none => simpa using it
     | some x => cases x <;> simpa using it
+
+/-- what is added to `absorbed` is an *error return* (never a panic) of a call made by an `absorbErr`
+node (the only constructor that adds to `absorbed`), at a call index the run reached -/
+theorem run_absorbed_err (sites : Nat → Site) (plan : Nat → Option Mode) (t : Tree) :
+    ∀ st c, c ∈ (run sites plan t st).1.absorbed → c ∈ st.absorbed ∨
+      (plan c = some .err ∧ st.counter ≤ c ∧ c < (run sites plan t st).1.counter ∧ t.hasAbsorb = true) := by
+  induction t with
+  | nop => intro st c h; exact .inl (by simpa [run] using h)
+  | call m =>
+    intro st c h
+    refine .inl ?_
+    simp only [run, callStep] at h
+    split at h <;> (try split at h) <;> simpa using h
+  | pkValidate m =>
+    intro st c h
+    refine .inl ?_
+    simp only [run, callStep] at h
+    split at h <;> (try split at h) <;> simpa using h
+  | absorbErr m =>
+    intro st c h
+    simp only [run] at h ⊢
+    split at h
+    · rename_i hp
+      split at h
+      · simp only [List.mem_cons] at h
+        rcases h with h | h
+        · subst h
+          rename_i hr
+          exact .inr ⟨hp, Nat.le_refl _, by simp [hr], rfl⟩
+        · exact .inl h
+      · refine .inl ?_
+        simp only [callStep] at h
+        split at h <;> (try split at h) <;> simpa using h
+    · refine .inl ?_
+      simp only [callStep] at h
+      split at h <;> (try split at h) <;> simpa using h
+  | seq a b iha ihb =>
+    intro st c h
+    simp only [run] at h ⊢
+    have ma := run_mono sites plan a st
+    rcases hra : run sites plan a st with ⟨st1, ra⟩
+    rw [hra] at h ma
+    cases ra with
+    | some r =>
+      simp only [] at h ⊢
+      rcases iha st c (by rw [hra]; exact h) with h1 | ⟨h1, h2, h3, h4⟩
+      · exact .inl h1
+      · rw [hra] at h3
+        exact .inr ⟨h1, h2, h3, by simp [Tree.hasAbsorb, h4]⟩
+    | none =>
+      simp only [] at h ⊢
+      have mb := run_mono sites plan b st1
+      rcases ihb st1 c h with h1 | ⟨h1, h2, h3, h4⟩
+      · rcases iha st c (by rw [hra]; exact h1) with h5 | ⟨h5, h6, h7, h8⟩
+        · exact .inl h5
+        · rw [hra] at h7
+          exact .inr ⟨h5, h6, by simp only [] at h7 mb; omega, by simp [Tree.hasAbsorb, h8]⟩
+      · exact .inr ⟨h1, by simp only [] at ma; omega, h3, by simp [Tree.hasAbsorb, h4]⟩
+  | tryUpdate t ih =>
+    intro st c h
+    simp only [run] at h ⊢
+    rcases hr : run sites plan t st with ⟨st1, r⟩
+    rw [hr] at h
+    have step : ∀ (st' : St), st'.absorbed = st1.absorbed → st'.counter = st1.counter → c ∈ st'.absorbed →
+        c ∈ st.absorbed ∨ (plan c = some .err ∧ st.counter ≤ c ∧ c < st'.counter ∧ (Tree.tryUpdate t).hasAbsorb = true) := by
+      intro st' ha hc hm
+      rcases ih st c (by rw [hr]; rw [ha] at hm; exact hm) with h1 | ⟨h1, h2, h3, h4⟩
+      · exact .inl h1
+      · rw [hr] at h3
+        exact .inr ⟨h1, h2, by rw [hc]; exact h3, by simpa [Tree.hasAbsorb] using h4⟩
+    cases r with
+    | none => exact step st1 rfl rfl (by simpa using h)
+    | some x =>
+      cases x with
+      | ext c' => exact step _ rfl rfl (by simpa using h)
+      | user c' => exact step _ rfl rfl (by simpa using h)
+      | raw c' => exact step st1 rfl rfl (by simpa using h)
 
 end Verif.Proofs.HostProp
